@@ -290,7 +290,8 @@ def jobs(ctx):
     else:
         for name in E:
             out.append(('store', ctx.tier, ctx.seed, name, E[name], ['A', 'B'], 2))
-        out.append(('store', ctx.tier, ctx.seed, 'store-join', E['store-join'], ['A'], 3, {'split': True}))
+        out.append(('store', ctx.tier, ctx.seed, 'store-join', E['store-join'], ['A'], 2, {'split': True}))
+        out.append(('store', ctx.tier, ctx.seed, 'store-join', E['store-join'], ['A', 'B'], 1, {'split': True}))
         out.append(('store', ctx.tier, ctx.seed, 'store-chain', E['store-chain'], ['A'], 2, {'split': True}))
         out.append(('store', ctx.tier, ctx.seed, 'store-fanout', E['store-fanout'], ['A', 'B'], 2, {'two_updates': True}))
     return out
